@@ -193,6 +193,40 @@ pub fn load_known_findings(path: &str) -> Result<Vec<KnownFinding>, String> {
   Ok(out)
 }
 
+/// Known findings for code that runs outside of a `Ctx` (the fuzz targets): loaded once from
+/// `$VERIF_ROOT/known_findings.json`.
+pub fn is_known(prop: &str, v: &Violation) -> bool {
+  use std::sync::OnceLock;
+  static K: OnceLock<Vec<KnownFinding>> = OnceLock::new();
+  let k = K.get_or_init(|| {
+    let root = std::env::var("VERIF_ROOT").unwrap_or_else(|_| "/verif".to_string());
+    load_known_findings(&format!("{}/known_findings.json", root)).unwrap_or_default()
+  });
+  k.iter().any(|f| f.matches(prop, v))
+}
+
+/// Used by the fuzz targets: panics (= libFuzzer crash) on a violation of `prop` which is not a
+/// known finding; does nothing if the environment variable HPXV_FUZZ_PROP names another property.
+pub fn fuzz_verdict(prop: &str, r: Result<(), Violation>) {
+  if let Ok(only) = std::env::var("HPXV_FUZZ_PROP") {
+    if !only.is_empty() && only != prop {
+      return;
+    }
+  }
+  if let Err(v) = r {
+    if !is_known(prop, &v) {
+      panic!("{} violation: {}/{}: {}", prop, v.check, v.kind, v.detail);
+    }
+  }
+}
+
+pub fn fuzz_wants(prop: &str) -> bool {
+  match std::env::var("HPXV_FUZZ_PROP") {
+    Ok(only) => only.is_empty() || only == prop,
+    Err(_) => true,
+  }
+}
+
 // ---------------------------------------------------------------------------------------------
 // Recorder (one per worker, merged afterwards)
 
